@@ -89,10 +89,12 @@ CLAIMED = {
         "placement. Proved with inductive loop invariants over the join view of the chunk list: _readline splits S at its first CRLF, "
         "_readvalue returns S[:n] and leaves S[n+2:], _readsegment splits at the (first) end token with nothing lost, _recv never lets "
         "EINTR escape and consumes nothing on a retry, unexpected-close only when the stream really lacks the data; plus the uniqueness "
-        "lemma of the first split. Callers touch the stream only through these readers (C01).",
+        "lemma of the first split. The callers are part of the statement: the fetch path (_fetch_cmd / _extract_value, which decides when "
+        "_readvalue is called) is re-established in the same run as dep:C04, the ElastiCache configuration reader as dep:C19.",
    note="Trusted: ghost socket contract of recv (the OS); pyvc VC generator; z3 5.1 / cvc5 1.4 string theories; A-find/A-slice/A-join. "
         "Withdrawn clause: first-occurrence for an arbitrary symbolic end token (proved for CRLF and the ElastiCache token only). "
-        "Termination is not claimed.",
+        "Termination is not claimed. A bounded segmentation corpus through the three readers stands in when a reader leaves the "
+        "verifier's reach.",
    technique="contract-based deductive verification: loop invariants over a ghost prophecy stream, per-path string VCs (cvc5 + z3)",
    ref="5 C03"),
  "C06": dict(
@@ -230,7 +232,7 @@ CLAIMED = {
    note="The end-to-end statement get(set(v)) == v is the composition of this contract with C02 (what a store sends) and C15 (serde inverse) "
         "against the assumed server format; that composition is an argument over machine-checked contracts, not a fourth proof. Multi-key: "
         "every returned key is the caller's own key object for that wire key (cut lemma over dict(zip(prefixed, keys)); the one-shot iterator "
-        "defect it exposed is repaired in /repo e277692); repeated keys are decided by bounded replay only. Reader contracts re-proved as dep:C03.",
+        "defect it exposed is repaired in /repo e277692); repeated keys are decided by bounded replay only. The public wrappers hand the fetched value on unchanged (a falsy value is a value, not a miss). Reader contracts, the serde inverse and the store framing are re-proved as dep:C03, dep:C15, dep:C02.",
    technique="contract-based deductive verification: loop invariant + cut lemmas over a ghost reply stream (cvc5 + z3)",
    ref="5 C04"),
  "C05": dict(
